@@ -248,9 +248,23 @@ impl Node {
     /// This function will run into infinite recursion when the DOM tree contains cycles and it makes
     /// no attempts to guard against that.
     fn clone_with_subtree(&self) -> Rc<Self> {
+        let data = self.data.clone();
+        // The contents of a template belong to that one template element: the clone gets a copy of
+        // its own instead of a second reference to the same fragment.
+        if let NodeData::Element {
+            ref template_contents,
+            ..
+        } = data
+        {
+            let copy = template_contents
+                .borrow()
+                .as_ref()
+                .map(|contents| contents.clone_with_subtree());
+            *template_contents.borrow_mut() = copy;
+        }
         let clone = Rc::new(Self {
             parent: Cell::new(None),
-            data: self.data.clone(),
+            data,
             children: RefCell::new(Vec::new()),
         });
         for child in self.children.borrow().iter() {
